@@ -234,6 +234,7 @@ pub fn spec_of(d: &ActorDecl) -> Arc<Spec> {
         aux_work: d.aux_work,
         tick_work: d.tick_work,
         aux_yield: d.aux_yield,
+        item_stop_at: d.item_stop_at,
     })
 }
 
